@@ -24,6 +24,10 @@
 From Crusta Require Import Spec.AF Sat.Cnf Sat.Prog Model.Encoders Model.Graph Model.Solvers.
 From Crusta Require Import Proofs.EncSpec Proofs.SolverBasics Proofs.SolverThms.
 From Crusta Require Import Proofs.TopBase Proofs.TopMax Proofs.SolverTop.
+From Crusta Require Proofs.Clauses.
+From Crusta Require Proofs.SolverWholeEx Spec.SemFacts.
+From Coq Require Import Lia.
+Import ListNotations.
 Open Scope prog_scope.
 
 Theorem C02_complete_component_partial : forall oracle thr, 1 <= thr -> valid_oracle oracle ->
@@ -72,7 +76,55 @@ Theorem C02_credulous_preferred : forall oracle thr g F,
   end.
 Proof. exact SolverTop.top_credulous_preferred. Qed.
 
+(* ---- the remaining sentences of the property text, one by one (Proofs/Clauses.v) ---- *)
+
+(* "for every framework, argument and semantics ... YES exactly when at least one extension of the
+   framework under that semantics contains the argument, and NO otherwise": the one-argument form *)
+Theorem C02_credulous_single : forall oracle thr g F,
+  valid_oracle oracle -> 1 <= thr -> view_good g F ->
+  forall s e a fuel cert st0 b c t, supported s QDC -> enc_ok s e -> al_ok s QDC F [a] ->
+  run_query oracle thr fuel s QDC cert e g [a] st0 = Done (OAcc b c) t ->
+  (b = true <-> exists S, ext s F S /\ In a S).
+Proof. exact Clauses.dc_single. Qed.
+
+(* "(membership in the grounded / ideal extension for GR / ID)": G being THE grounded / ideal
+   extension, YES exactly when a listed argument is a member of G *)
+Theorem C02_credulous_unique_membership : forall oracle thr g F,
+  valid_oracle oracle -> 1 <= thr -> view_good g F ->
+  forall s e al fuel cert st0 b c t G, s = GR \/ s = ID -> enc_ok s e ->
+  al_ok s QDC F al -> ext s F G ->
+  run_query oracle thr fuel s QDC cert e g al st0 = Done (OAcc b c) t ->
+  (b = true <-> exists a, In a al /\ In a G).
+Proof. exact Clauses.dc_unique_membership. Qed.
+
+(* "in particular NO for every argument when no stable extension exists" *)
+Theorem C02_credulous_stable_none : forall oracle thr g F,
+  valid_oracle oracle -> 1 <= thr -> view_good g F ->
+  forall e al fuel cert st0 b c t, (forall S, ~ st F S) ->
+  run_query oracle thr fuel ST QDC cert e g al st0 = Done (OAcc b c) t ->
+  b = false.
+Proof. exact Clauses.dc_stable_none. Qed.
+
+(* the hypothesis "no stable extension" is satisfiable and the run completes: one self-attacking
+   argument, brute-force (valid) oracle *)
+Example C02_credulous_stable_none_example :
+  let F := compact 1 [(0, 0)] in
+  view_good (view_of_af F) F /\ (forall S, ~ st F S) /\
+  exists t, run_query SolverWholeEx.bf_oracle 1 10 ST QDC false AuxCo (view_of_af F) [0]
+              (init_st CadicalLike) = Done (OAcc false None) t.
+Proof.
+  cbv zeta. split.
+  { apply (view_good_compact _ 1). split; [reflexivity|]. intros a b [E|[]]. injection E as <- <-. lia. }
+  split.
+  { intros S H. assert (E : all_exts ST (compact 1 [(0, 0)]) = []) by reflexivity.
+    destruct (SemFacts.all_exts_complete ST _ S H) as [T [HT _]]. rewrite E in HT. exact HT. }
+  eexists. vm_compute. reflexivity.
+Qed.
+
 Print Assumptions C02_complete_component_partial.
 Print Assumptions C02_stable_component_partial.
 Print Assumptions C02_credulous.
 Print Assumptions C02_credulous_preferred.
+Print Assumptions C02_credulous_single.
+Print Assumptions C02_credulous_unique_membership.
+Print Assumptions C02_credulous_stable_none.
